@@ -44,7 +44,7 @@ Definition numeric_missing (i : Z) : result Z :=
   if ((i <? -65) || (64 <? i))%Z then Err EIndex
   else Ok (2 ^ (if (i <? 0)%Z then i + 65 else i) - 1)%Z.
 
-Definition is_none {A} (x : option A) : bool := match x with None => true | Some _ => false end.
+Definition opt_is_none {A} (x : option A) : bool := match x with None => true | Some _ => false end.
 
 Fixpoint write_uints (vs : list Z) (w : Z) (o : writer) : result writer :=
   match vs with
@@ -78,7 +78,7 @@ Definition enc_col_num (w : Z) (all_equal : bool) (raws : list (option Z)) (o : 
   match raws with
   | [] => Err EIndex
   | v0 :: _ =>
-      if all_equal && is_none v0 then
+      if all_equal && opt_is_none v0 then
         let* m := numeric_missing w in col_header m w 0 o
       else if all_equal then
         let* m := match v0 with None => numeric_missing w | Some v => Ok v end in
@@ -150,12 +150,12 @@ Definition dec_col_codeflag (w : Z) (dnbits : Z) (n : nat) (r : reader)
   : result (list (option N) * reader) :=
   let* (mn, r1) := read_uint_or_none w r in
   let* (nd, r2) := read_uint NBITS_FOR_NBITS_DIFF r1 in
-  if is_none mn || (nd =? 0)%N then
+  if opt_is_none mn || (nd =? 0)%N then
     if (nd =? 0)%N then Ok (repeat mn n, r2) else Err EAssert
   else
     match mn with
     | Some m => dec_incs_codeflag nd dnbits m n r2
-    | None => Err EAssert        (* unreachable: is_none mn was false *)
+    | None => Err EAssert        (* unreachable: opt_is_none mn was false *)
     end.
 
 (* ---- character columns ---------------------------------------------------------
@@ -180,7 +180,7 @@ Definition enc_col_str (nbytes : Z) (all_equal : bool) (vals : list (option (lis
   | [] => Err EIndex
   | v0 :: _ =>
       let min_value :=
-        if all_equal && is_none v0 then bytes_rep 255%N nbytes
+        if all_equal && opt_is_none v0 then bytes_rep 255%N nbytes
         else if all_equal then str_or_missing nbytes v0
         else bytes_rep 0%N nbytes in
       let nd := if all_equal then 0%Z else nbytes in
@@ -191,14 +191,14 @@ Definition enc_col_str (nbytes : Z) (all_equal : bool) (vals : list (option (lis
   end.
 
 (* Python's [x in s] on bytes: substring test *)
-Fixpoint is_prefix (x s : list byte) : bool :=
+Fixpoint bytes_is_prefix (x s : list byte) : bool :=
   match x, s with
   | [], _ => true
-  | a :: x', b :: s' => (a =? b)%N && is_prefix x' s'
+  | a :: x', b :: s' => (a =? b)%N && bytes_is_prefix x' s'
   | _ :: _, [] => false
   end.
-Fixpoint is_infix (x s : list byte) : bool :=
-  is_prefix x s || match s with [] => false | _ :: s' => is_infix x s' end.
+Fixpoint bytes_is_infix (x s : list byte) : bool :=
+  bytes_is_prefix x s || match s with [] => false | _ :: s' => bytes_is_infix x s' end.
 
 (* Python's [a or b] on bytes: a unless it is empty *)
 Definition py_or_bytes (a b : list byte) : list byte := match a with [] => b | _ => a end.
@@ -206,7 +206,7 @@ Definition py_or_bytes (a b : list byte) : list byte := match a with [] => b | _
 (* min_value in (b'\0' * n or b'\xff' * n): the parenthesis is ONE bytes object
    (the zero string, or b'' when n = 0), and [in] is the substring test *)
 Definition str_min_is_blank (nbytes : Z) (mn : list byte) : bool :=
-  is_infix mn (py_or_bytes (bytes_rep 0%N nbytes) (bytes_rep 255%N nbytes)).
+  bytes_is_infix mn (py_or_bytes (bytes_rep 0%N nbytes) (bytes_rep 255%N nbytes)).
 
 Fixpoint dec_incs_str (nd : Z) (mn : list byte) (n : nat) (r : reader)
   : result (list (list byte) * reader) :=
@@ -308,7 +308,7 @@ Fixpoint dec_fields_str (nbytes : Z) (n : nat) (r : reader) : result (list (list
    means every subset has the value R0, or is missing when R0 is all ones (a
    one-bit element has no missing pattern); all-ones R0 with NBINC <> 0 is not
    a legal column. *)
-Definition all_ones (b : bits) : bool := forallb (fun x => x) b.
+Definition bits_all_ones (b : bits) : bool := forallb (fun x => x) b.
 
 Fixpoint spec_incs (nb : nat) (r0 : N) (n : nat) (r : reader) : result (list (option N) * reader) :=
   match n with
@@ -316,14 +316,14 @@ Fixpoint spec_incs (nb : nat) (r0 : N) (n : nat) (r : reader) : result (list (op
   | S k =>
       let* (b, r1) := take_bits nb r in
       let* (vs, r2) := spec_incs nb r0 k r1 in
-      Ok ((if all_ones b then None else Some (r0 + of_bits b)%N) :: vs, r2)
+      Ok ((if bits_all_ones b then None else Some (r0 + of_bits b)%N) :: vs, r2)
   end.
 
 Definition spec_dec_col_num (w : Z) (n : nat) (r : reader) : result (list (option N) * reader) :=
   if (w <? 1)%Z then Err EValue else
   let* (b0, r1) := take_bits (Z.to_nat w) r in
   let* (bw, r2) := take_bits 6 r1 in
-  let r0_missing := (1 <? w)%Z && all_ones b0 in
+  let r0_missing := (1 <? w)%Z && bits_all_ones b0 in
   match N.to_nat (of_bits bw) with
   | O => Ok (repeat (if r0_missing then None else Some (of_bits b0)) n, r2)
   | S _ as nb => if r0_missing then Err EAssert else spec_incs nb (of_bits b0) n r2
@@ -346,7 +346,7 @@ Definition lay_col_missing (w : Z) : bits := ones (Z.to_nat w) ++ zeros 6.
 
 (* ---- executable domains of the round-trip theorems (extracted; the check
    reports which generated columns lie inside) ------------------------------------ *)
-Definition opt_eqb (a b : option Z) : bool :=
+Definition optz_eqb (a b : option Z) : bool :=
   match a, b with
   | None, None => true
   | Some x, Some y => (x =? y)%Z
@@ -355,54 +355,54 @@ Definition opt_eqb (a b : option Z) : bool :=
 
 (* the flag the caller passes: true only if all entries are equal; false only if
    some entry is present (an all-missing column always has all_equal = true) *)
-Definition flag_ok (all_equal : bool) (raws : list (option Z)) : bool :=
+Definition col_flag_ok (all_equal : bool) (raws : list (option Z)) : bool :=
   match raws with
   | [] => false
-  | v0 :: _ => if all_equal then forallb (opt_eqb v0) raws else existsb (fun v => negb (is_none v)) raws
+  | v0 :: _ => if all_equal then forallb (optz_eqb v0) raws else existsb (fun v => negb (opt_is_none v)) raws
   end.
 
-Definition in_range (w : Z) (v : option Z) : bool :=
+Definition col_in_range (w : Z) (v : option Z) : bool :=
   match v with None => true | Some x => (0 <=? x)%Z && (x <=? 2 ^ w - 2)%Z end.
 
 (* the width of the increments fits the 6-bit field: nbits_for_uint (D+1) <= 63 *)
-Definition spread_ok (raws : list (option Z)) : bool :=
+Definition col_spread_ok (raws : list (option Z)) : bool :=
   match minmax raws with
   | None => true
   | Some (mn, mx) => (mx - mn + 2 <? 2 ^ 63)%Z
   end.
 
 Definition col_dom_num (w : Z) (all_equal : bool) (raws : list (option Z)) : bool :=
-  (2 <=? w)%Z && (w <=? 64)%Z && flag_ok all_equal raws && forallb (in_range w) raws && spread_ok raws.
+  (2 <=? w)%Z && (w <=? 64)%Z && col_flag_ok all_equal raws && forallb (col_in_range w) raws && col_spread_ok raws.
 
 (* one-bit columns: values 0 and 1, no missing entry *)
-Definition in_range1 (v : option Z) : bool :=
+Definition col_in_range1 (v : option Z) : bool :=
   match v with None => false | Some x => (0 <=? x)%Z && (x <=? 1)%Z end.
 Definition col_dom_onebit (all_equal : bool) (raws : list (option Z)) : bool :=
-  flag_ok all_equal raws && forallb in_range1 raws.
+  col_flag_ok all_equal raws && forallb col_in_range1 raws.
 
-Definition opt_bytes_ok (v : option (list byte)) : bool :=
+Definition col_opt_bytes_ok (v : option (list byte)) : bool :=
   match v with None => true | Some s => forallb is_byte s end.
 
-Fixpoint bytes_eqb (a b : list byte) : bool :=
+Fixpoint col_bytes_eqb (a b : list byte) : bool :=
   match a, b with
   | [], [] => true
-  | x :: a', y :: b' => (x =? y)%N && bytes_eqb a' b'
+  | x :: a', y :: b' => (x =? y)%N && col_bytes_eqb a' b'
   | _, _ => false
   end.
-Definition opt_bytes_eqb (a b : option (list byte)) : bool :=
+Definition col_opt_bytes_eqb (a b : option (list byte)) : bool :=
   match a, b with
   | None, None => true
-  | Some x, Some y => bytes_eqb x y
+  | Some x, Some y => col_bytes_eqb x y
   | _, _ => false
   end.
-Definition flag_ok_str (all_equal : bool) (vals : list (option (list byte))) : bool :=
+Definition col_flag_ok_str (all_equal : bool) (vals : list (option (list byte))) : bool :=
   match vals with
   | [] => false
-  | v0 :: _ => if all_equal then forallb (opt_bytes_eqb v0) vals else true
+  | v0 :: _ => if all_equal then forallb (col_opt_bytes_eqb v0) vals else true
   end.
 
 Definition col_dom_str (nbytes : Z) (all_equal : bool) (vals : list (option (list byte))) : bool :=
-  (0 <=? nbytes)%Z && (nbytes <=? 63)%Z && flag_ok_str all_equal vals && forallb opt_bytes_ok vals.
+  (0 <=? nbytes)%Z && (nbytes <=? 63)%Z && col_flag_ok_str all_equal vals && forallb col_opt_bytes_ok vals.
 
 (* the guard that excluded D13 before the repair: an all-equal column of NUL strings *)
 Definition is_equal_nul_col (nbytes : Z) (all_equal : bool) (vals : list (option (list byte))) : bool :=
